@@ -283,6 +283,50 @@ def run_cli(desc, casedir):
             sys.argv = ["hypnotoad-circular", "opts.yaml"]
             hypnotoad_circular.main()
             out = "bout.grd.nc"
+        elif entry == "roundtrip-cli":
+            # geqdsk + yaml -> hypnotoad-geqdsk -> hypnotoad-recreate-inputs -> hypnotoad-geqdsk
+            text = write_geqdsk_for(desc, os.path.join(casedir, "input.geqdsk"))
+            with open(os.path.join(casedir, "opts.yaml"), "w") as f:
+                yaml.safe_dump(desc.get("options", {}), f)
+            from hypnotoad.scripts import hypnotoad_geqdsk, hypnotoad_recreate_inputs
+
+            sys.argv = ["hypnotoad-geqdsk", "input.geqdsk", "opts.yaml"]
+            hypnotoad_geqdsk.main()
+            os.replace("bout.grd.nc", "grid.nc")
+            for fn in ("re.geqdsk", "re.yaml"):
+                if os.path.exists(fn):
+                    os.unlink(fn)
+            sys.argv = ["hypnotoad-recreate-inputs", "grid.nc", "-g", "re.geqdsk", "-y", "re.yaml"]
+            hypnotoad_recreate_inputs.main()
+            summary = {"geqdsk_identical": open("re.geqdsk", newline="").read() == open("input.geqdsk", newline="").read()}
+            try:
+                with open("re.yaml") as f:
+                    o2 = yaml.safe_load(f)
+                summary["yaml_safe_loadable"] = isinstance(o2, dict)
+                summary["yaml_keys"] = sorted(o2) if isinstance(o2, dict) else []
+            except Exception as e:  # noqa: BLE001
+                summary["yaml_safe_loadable"] = False
+                summary["yaml_error"] = repr(e)[:300]
+                summary["yaml_keys"] = []
+            from hypnotoad.cases import tokamak
+            from hypnotoad.core.mesh import BoutMesh
+
+            want = set(tokamak.TokamakEquilibrium.user_options_factory.defaults) | set(
+                tokamak.TokamakEquilibrium.nonorthogonal_options_factory.defaults) | set(BoutMesh.user_options_factory.defaults)
+            summary["missing_option_keys"] = sorted(want - set(summary["yaml_keys"]))
+            if summary["yaml_safe_loadable"]:
+                try:
+                    sys.argv = ["hypnotoad-geqdsk", "re.geqdsk", "re.yaml"]
+                    hypnotoad_geqdsk.main()
+                    os.replace(o2.get("grid_file", "bout.grd.nc") if isinstance(o2, dict) else "bout.grd.nc", "grid2.nc")
+                    summary["second_run"] = "grid"
+                except BaseException as e:  # noqa: BLE001
+                    if isinstance(e, (KeyboardInterrupt, SystemExit)):
+                        raise
+                    summary["second_run"] = "raised: %r" % (e,)
+            with open("roundtrip.json", "w") as f:
+                json.dump(summary, f)
+            out = "grid.nc"
         else:
             raise ValueError("unknown entry %r" % entry)
         if out and os.path.exists(os.path.join(casedir, out)) and out != "grid.nc":
